@@ -1,5 +1,130 @@
-import RSVerif.Basic
-/- C14: line-protocol driver (stub) -/
+import RSVerif.Model.Checkpoint
+import RSVerif.Spec.Checkpoint
+/-
+line protocol for C14: what the proved model (repaired matching) predicts for each case of go/harness/c14.go
+
+  ks <texthex>                                  ParseKeyspace alone
+  fetch <addrhex> <hash>                        fetchCheckpoint on one HGETALL reply (in reply order)
+  load <addrhex> <kshex> <wf> <state> <failat>  LoadCheckpoint against a target state; <kshex> is the INFO reply served
+  writer <addrhex> <runidhex> <state> <batches> state after the real sender's groups, then LoadCheckpoint
+
+  <hash>  = "-" | f=v,f=v,…          (hex, "-" = empty string)
+  <state> = "-" | db:others:<hash>/db:others:<hash>/…
+
+Go's map iteration order is arbitrary: a `load` line lists every outcome the model allows (one per choice of the
+db visited first among equal offsets), separated by " || "; with a unique maximum there is exactly one.
+-/
 namespace RSVerif.Drive.C14
-def handle (_line : String) : String := "unimplemented"
+open RSVerif RSVerif.Checkpoint
+
+def parsePair (s : String) : Option (Bytes × Bytes) :=
+  match s.splitOn "=" with
+  | [f, v] => do pure ((← ofHex f), (← ofHex v))
+  | _ => none
+
+def parseHash (s : String) : Option Hash :=
+  if s == "-" then some [] else (s.splitOn ",").mapM parsePair
+
+def parseDb (s : String) : Option (Int × Db) :=
+  match s.splitOn ":" with
+  | [d, o, h] => do pure ((← d.toInt?), ⟨(← parseHash h), (← o.toNat?)⟩)
+  | _ => none
+
+def parseState (s : String) : Option State :=
+  if s == "-" then some [] else (s.splitOn "/").mapM parseDb
+
+def showHash (h : Hash) : String :=
+  if h.isEmpty then "-" else ",".intercalate (h.map fun p => hexOrDash p.1 ++ "=" ++ hexOrDash p.2)
+
+/-- dbs by index, fields by name (the order of a sender's hsets is not an observable) -/
+def canon (st : State) : State :=
+  (st.map fun p => (p.1, { p.2 with ckpt := p.2.ckpt.mergeSort fun x y => hexOrDash x.1 ≤ hexOrDash y.1 })).mergeSort
+    fun x y => x.1 ≤ y.1
+
+def showState (st : State) : String :=
+  if st.isEmpty then "-" else "/".intercalate (st.map fun p => s!"{p.1}:{p.2.others}:{showHash p.2.ckpt}")
+
+def showRet : Ret → String
+  | .ok r o d => s!"ok:{hexOrDash r}:{o}:{d}"
+  | .err => "err"
+  | .panic => "panic"
+
+def showOutcome (r : Ret × State) : String := s!"ret={showRet r.1} st={showState r.2}"
+
+def rotations (l : List Int) : List (List Int) :=
+  if l.isEmpty then [[]] else (List.range l.length).map fun i => l.drop i ++ l.take i
+
+/-- every outcome of the model over the rotations of the key list (covers every "first among equals") -/
+def outcomes (addr ks : Bytes) (st : State) : List String :=
+  match parseKeyspace ks with
+  | .err => [showOutcome (.err, st)]
+  | .panic => [showOutcome (.panic, st)]
+  | .ok dbs => ((rotations dbs).map fun o => showOutcome (loadFrom exactMatch addr st o o)).eraseDups
+
+/-- a lower bound of the number of commands of the scan phase: `info`, then at least `select` + one read per db
+    (the code sends `select`, `exists` and, if the key exists, `hgetall`) -/
+def scanCommands (_st : State) (dbs : List Int) : Nat := 1 + 2 * dbs.length
+
+def loadLine (addr ks : Bytes) (wf : Bool) (st : State) (failAt : Nat) : String :=
+  if wf && infoKeyspace st != ks then "ksdrift" else
+  if failAt == 0 then " || ".intercalate (outcomes addr ks st) else
+  if failAt == 1 then showOutcome (.err, st) else
+  match parseKeyspace ks with
+  | .err => showOutcome (.err, st)
+  | .panic => showOutcome (.panic, st)
+  | .ok dbs => if failAt ≤ scanCommands st dbs then showOutcome (.err, st) else "unsupported"
+
+def othersOf (st : State) (d : Int) : Nat :=
+  match st.find? (fun p => p.1 == d) with
+  | some p => p.2.others
+  | none => 0
+
+/-- a sender group `<db>:<offset>:<n data commands>` -/
+def parseGroup (s : String) : Option (Int × Int × Nat) :=
+  match s.splitOn ":" with
+  | [d, o, n] => do pure ((← d.toInt?), (← o.toInt?), (← n.toNat?))
+  | _ => none
+
+/-- the session of `Spec/Checkpoint` (`sessStep`): per group, its `n` fresh data keys (a foreign `data` event)
+    and then the group's checkpoint write; the session stamps run id + version the first time it meets a db -/
+def runGroups (addr runid : Bytes) (gs : List (Int × Int × Nat)) (st : State) : Sess :=
+  gs.foldl (fun s g =>
+    let s1 := sessStep addr runid s (.other (.data g.1 (othersOf s.st g.1 + g.2.2)))
+    sessStep addr runid s1 (.group ⟨g.1, g.2.1⟩)) ⟨st, [], none⟩
+
+def handle (line : String) : String :=
+  match line.splitOn " " with
+  | ["ks", h] =>
+    match ofHex h with
+    | some t =>
+      match parseKeyspace t with
+      | .ok dbs => "ok:" ++ ",".intercalate ((dbs.mergeSort (· ≤ ·)).map toString)
+      | .err => "err"
+      | .panic => "panic"
+    | none => "badcase"
+  | ["fetch", a, h] =>
+    match ofHex a, parseHash h with
+    | some addr, some hash =>
+      match fetchCheckpoint exactMatch addr hash with
+      | some f => s!"ok:{hexOrDash f.runid}:{f.offset}:{f.version}"
+      | none => "err"
+    | _, _ => "badcase"
+  | ["load", a, k, wf, s, fa] =>
+    match ofHex a, ofHex k, parseState s, fa.toNat? with
+    | some addr, some ks, some st, some failAt => loadLine addr ks (wf == "1") st failAt
+    | _, _, _, _ => "badcase"
+  | ["writer", a, r, s, bs] =>
+    match ofHex a, ofHex r, parseState s with
+    | some addr, some runid, some st =>
+      match (bs.splitOn ",").mapM parseGroup with
+      | some groups =>
+        let s := runGroups addr runid groups st
+        -- the property's prediction (writer_reader_agree_session): the loader returns what the last group stored
+        match s.last with
+        | some g => s!"sent={showState (canon s.st)} ret={showRet (.ok runid g.offset g.db)}"
+        | none => "badcase"
+      | none => "badcase"
+    | _, _, _ => "badcase"
+  | _ => "badcase"
+
 end RSVerif.Drive.C14
